@@ -1,22 +1,22 @@
 CONSTANTS
-  Nodes = {1, 2}
+  Nodes = {1, 2, 3}
   RootObjs <- R12
   RootPkg <- Pkg12
   RootSlots <- Slots12
   Realms = {1, 2}
   MaxOps = 3
   MaxOps1 = 3
-  MaxTx = 2
+  MaxTx = 3
   OwnerFix = TRUE
   AttachGuard = TRUE
   SaveGuard = TRUE
-  ObjSeq <- Seq2b
-  HandMode = FALSE
+  ObjSeq <- Seq3b
+  HandMode = TRUE
   Bias = TRUE
   Quiet = FALSE
 INIT Init
 NEXT Next
 VIEW view
-ACTION_CONSTRAINT EmitEdge
+ACTION_CONSTRAINT EmitHandEdge
 INVARIANTS RefinesDecl RefCountExact OwnerIffSingle NoDangling IdCounter ReachableUnlessCyclic
 CHECK_DEADLOCK FALSE
